@@ -176,4 +176,13 @@ Section BlockAlg.
       + apply hstack_wf; [congruence|exact WA|exact Wr].
       + exact HA.
   Qed.
+  (* the gram of a block column is the sum of the grams: [A; B]^H [A; B] = A^H A + B^H B *)
+  Lemma adjop_wf' (A : linop) : wf A -> wf (adjop A).
+  Proof. intros (L1 & E1 & L2 & E2). unfold wf. cbn [adjop dom ran fwd adj]. repeat split; assumption. Qed.
+  Lemma gram_vstack (A B : linop) : wf A -> wf B -> dom A = dom B ->
+    opeq (comp (adjop (vstack A B)) (vstack A B)) (lsum (comp (adjop A) A) (comp (adjop B) B)).
+  Proof.
+    intros WA WB HAB.
+    exact (comp_row_column (adjop A) (adjop B) A B (adjop_wf' A WA) (adjop_wf' B WB) WA WB eq_refl eq_refl HAB HAB).
+  Qed.
 End BlockAlg.
